@@ -351,6 +351,8 @@ def standard(prop, tier, seed, engines, assumptions, known_witnesses=None, extra
         if not w:
             continue
         eng, line, clause = w
+        if eng.exe not in r._impl_exes:
+            continue   # engine filtered out (VERIF_ONLY_ENGINES)
         a = eng.canon(C.run_lines(r._impl_exes[eng.exe], [line], shards=1, mem_gb=getattr(eng, 'mem_gb', None))[0])
         if any(c == clause for c, _ in eng.monitor(line, a)):
             r.known_lines.append("KNOWN-FINDING: property=%s id=%s %s" % (prop, k["id"], k["what"]))
